@@ -12,6 +12,15 @@
 // with faults injected at the k-th block through the compact.block hook, that
 // a failed or aborted run returns an error, leaves the inputs byte-identical
 // and readable and leaves no temporary file behind.
+//
+// Signatures name the reader that saw the difference and the kind of the first
+// diverging point (point-lost, deleted-point-reappears, older-value-wins, ...).
+// Two listed findings (block lists sorted with a comparator that is not a
+// strict weak order) only exist above 12 (KeyCursor) / 20 (Compactor) blocks
+// of a key, so those signatures carry an /over-N-blocks suffix and every case
+// below the thresholds stays under the strict oracle; cases fixed/0 and
+// fixed/1 are their shrunk reproductions. C09_SHRINK=1 with --replay shrinks a
+// failing file set (shrink.go).
 package main
 
 import (
@@ -118,11 +127,11 @@ func body() {
 		"failures are injected at the compact.block site only (error return, DisableCompactions / DisableSnapshots / Close from the handler); reader-originated I/O errors and the .bad rename of checksum-failing inputs are not exercised",
 		"the 2 GiB file-size rollover and the >=2e6-value concurrent snapshot path are out of reach of the tiers; the size limit is only checked on the outputs produced",
 	}
-	r.Floor = 60
+	r.Floor = 150
 
-	nSets := r.Pick(520, 16000)
-	nSnap := r.Pick(140, 4200)
-	nBig := r.Pick(2, 12)
+	nSets := r.Pick(900, 27000)
+	nSnap := r.Pick(240, 7200)
+	nBig := r.Pick(3, 15)
 	if v := os.Getenv("C09_NSETS"); v != "" {
 		fmt.Sscan(v, &nSets)
 	}
